@@ -191,6 +191,7 @@ def c20_rf21(run):
     rf_mir2c.rf95(run)
     run.min_instances('RF95', 6)
     rf_vocab.rf103(run)
+    rf_mir2c.rf139(run)
     rf_vocab.rf118(run, True)
     rf_proto.rf117(run)
     rf_mir2c.rf112(run)
@@ -332,6 +333,7 @@ def c01_rf18(run):
     rf_flow.rf114(run)
     rf_fold.rf48b(run)
     rf_flow.rf131(run)
+    rf_proto.rf138(run)
 
 
 def c04_rf18(run):
@@ -401,6 +403,7 @@ def c13_rf16(run):
     rf_proto.rf108(run)
     rf_proto.rf123(run)
     rf_proto.rf136(run)
+    rf_proto.rf138(run)
 
 
 def c14_rf16f(run):
